@@ -133,7 +133,17 @@ func run(c *core.Case) {
 	base.Deterministic = true
 
 	steps := []int64{1000, 5000, 10000, 15000, 17000, 30000, 60000, 100000, 300000, 1234, ds.Spacing, ds.Spacing / 2, ds.Spacing * 3}
-	for qi := 0; qi < 8; qi++ {
+	// Besides the generated queries: a family of plain selectors that put many series of different
+	// sample types (floats ending in staleness markers next to histograms, mixed-type series)
+	// behind ONE selector, bare and inside a subquery, stepped off the sample grid over most of
+	// the data: the per-selector iterator state carried from sample to sample and from series to
+	// series is exercised at every step.
+	family := []string{`{__name__=~".+"}`, `{job=~".+"}`, `count_over_time({__name__=~".+"}[%dms:%dms])`, `last_over_time({__name__=~".+"}[%dms])`}
+	if ds.HasMixed {
+		family = append(family, `mixed`, `{__name__=~"mixed|.*"}`)
+	}
+	frng := rand.New(rand.NewPCG(r.Uint64(), 27))
+	for qi := 0; qi < 8+len(family); qi++ {
 		cfg := base
 		cfg.MaxDepth = 1 + r.IntN(4)
 		g := pqgen.New(r, cfg)
@@ -144,6 +154,22 @@ func run(c *core.Case) {
 		}
 		nsteps := []int{2, 3, 4, 6, 10, 20, 40, 60}[r.IntN(8)]
 		start := ds.T0 - 90000 + r.Int64N(span+90000)
+		if qi >= 8 {
+			qs = family[qi-8]
+			g = pqgen.New(frng, cfg)
+			g.Kinds = map[string]int{"vector_selector": 1}
+			step = ds.Spacing*int64(2+frng.IntN(12))/8 + 1 + frng.Int64N(7)
+			if strings.Contains(qs, "%d") {
+				if strings.Count(qs, "%d") == 2 {
+					qs = fmt.Sprintf(qs, 3*ds.Spacing+frng.Int64N(ds.Spacing), ds.Spacing*int64(3+frng.IntN(6))/8+1)
+				} else {
+					qs = fmt.Sprintf(qs, ds.Spacing*int64(4+frng.IntN(16))/8+1)
+				}
+			}
+			nsteps = 60
+			start = ds.T0 - step + frng.Int64N(max(span-30*step, 1)+step)
+			c.Count("selector_family_range_queries", 1)
+		}
 		if r.IntN(3) == 0 {
 			start = start / 1000 * 1000
 		}
